@@ -142,32 +142,110 @@ let handle (toks : string list) (impl : string list) : string * string =
           show_verdict (judge_build cfg (obs3 flat) (nn full) None)
         | _ -> "holds") in                     (* no transaction was released: nothing to judge *)
     (m, v)
+  | "entry" ->
+    let cpb = num c in let mvs = num c in let mts = num c in let pure = (next c = "1") in
+    let cfg = { c_cpb = cpb; c_max_value_size = mvs; c_max_tx_size = mts } in
+    if next c <> "I" then failwith "I";
+    let nin = int_ c in
+    let ins = rep nin (fun () -> let coin = num c in let ma = p_ma c in (coin, ma)) in
+    if next c <> "O" then failwith "O";
+    let nout = int_ c in
+    let req = rep nout (fun () -> p_out c) in
+    if next c <> "C" then failwith "C";
+    let caddr = p_addr c in let cd = p_dat c in let cs = p_sref c in
+    if next c <> "V" then failwith "V";
+    let via = num c in
+    if next c <> "K" then failwith "K";
+    let ncol = int_ c in
+    let cols = rep ncol (fun () -> let coin = num c in let ma = p_ma c in (coin, ma)) in
+    if next c <> "P" then failwith "P";
+    let pct = num c in
+    if next c <> "M" then failwith "M";
+    let items = int_ c in let auxlen = num c in let late = (next c = "1") in
+    let aux = if items > 0 then Some auxlen else None in
+    let res = run_entry_case cpb mvs mts pure ins req caddr cd cs via cols pct aux late in
+    let show_ma (ma : multiasset) =
+      let b = Buffer.create 64 in
+      Buffer.add_string b (string_of_int (List.length ma));
+      List.iter (fun p -> Buffer.add_string b (" " ^ string_of_int (List.length p));
+                  List.iter (fun (nl, q) -> Buffer.add_string b (" " ^ sn nl ^ " " ^ sn q)) p) ma;
+      Buffer.contents b in
+    let okerr x = if x then "ok" else "err" in
+    let nreq = List.length req in
+    let m = (match res with
+        | EAddOut -> "err:addout"
+        | EFail -> "err:change"
+        | EPanic -> "panic"
+        | EFuel -> "outoffuel"
+        | EDone (fee, full, b_ok, t_ok, u_ok, outs, cret, ctot) ->
+          (* the transaction build_tx / build_tx_unsafe hands out carries the real (empty) witness set *)
+          let len = if t_ok || u_ok then
+              full_tx_size { t_inputs = List.init nin (fun i -> n_of_int i); t_outputs = outs; t_fee = fee; t_vkeys = n_of_int 0; t_boots = [];
+                             t_col_inputs = List.init ncol (fun i -> n_of_int i); t_col_return = cret; t_col_total = ctot; t_aux = aux }
+            else n_of_int 0 in
+          let b = Buffer.create 256 in
+          Buffer.add_string b (Printf.sprintf "ok %s F=%s B=%s T=%s U=%s L=%s %d" (sn fee) (sn full) (okerr b_ok) (okerr t_ok) (okerr u_ok) (sn len) nreq);
+          if not (b_ok || t_ok || u_ok) then Buffer.add_string b " none"
+          else begin
+            Buffer.add_string b (Printf.sprintf " %d" (List.length outs));
+            List.iter (fun o -> Buffer.add_string b (Printf.sprintf " %s %s %s" (sn o.o_coin) (sn (out_size o)) (sn (out_value_size o)))) outs;
+            (match cret with Some o -> Buffer.add_string b (Printf.sprintf " R %s %s %s" (sn o.o_coin) (sn (out_size o)) (sn (out_value_size o))) | None -> Buffer.add_string b " R -");
+            (match ctot with Some t -> Buffer.add_string b (" TC " ^ sn t) | None -> Buffer.add_string b " TC -");
+            Buffer.add_string b " |";
+            List.iter (fun o -> Buffer.add_string b (" " ^ show_ma o.o_ma)) (drop nreq outs)
+          end;
+          Buffer.contents b) in
+    let v = (match impl with
+        | [] -> "na"
+        | "ok" :: _fee :: f :: b :: t :: u :: l :: _nreq :: rest ->
+          let strip pre x = let n = String.length pre in String.sub x n (String.length x - n) in
+          let returned = (strip "B=" b = "ok") || (strip "T=" t = "ok") || (strip "U=" u = "ok") in
+          let full = (match strip "F=" f with "err" -> None | x -> Some (nn x)) in
+          let len = nn (strip "L=" l) in
+          (match rest with
+           | ["none"] -> show_verdict (judge_returned cfg returned [] None full len)
+           | nouts :: rest' ->
+             let (flat, _) = split_at_bar [] rest' in
+             let n = int_of_string nouts in
+             let rec obs3 k l = if k = 0 then ([], l) else (match l with
+                 | c' :: s :: v :: r -> let (a, r') = obs3 (k - 1) r in ({ ob_coin = nn c'; ob_size = nn s; ob_vsize = nn v } :: a, r')
+                 | _ -> ([], l)) in
+             let (outs, after) = obs3 n flat in
+             let colret = (match after with
+                 | "R" :: "-" :: _ -> None
+                 | "R" :: c' :: s :: v :: _ -> Some { ob_coin = nn c'; ob_size = nn s; ob_vsize = nn v }
+                 | _ -> None) in
+             show_verdict (judge_returned cfg returned outs colret full len)
+           | [] -> "fails:-")
+        | _ -> "holds") in
+    (m, v)
   | "txsize" ->
     let mts = num c in
     let cfg = { c_cpb = nn "4310"; c_max_value_size = nn "5000"; c_max_tx_size = mts } in
     if next c <> "I" then failwith "I";
     let nin = int_ c in
-    let _ins = rep nin (fun () -> let coin = num c in let ma = p_ma c in (coin, ma)) in
+    let ins = rep nin (fun () -> let coin = num c in let ma = p_ma c in (coin, ma)) in
     if next c <> "O" then failwith "O";
     let nout = int_ c in
     let req = rep nout (fun () -> p_out c) in
     if next c <> "F" then failwith "F";
     let fee = num c in
-    let shape v = { t_inputs = List.init nin (fun i -> n_of_int i); t_outputs = req; t_fee = fee; t_vkeys = n_of_int v; t_boots = [] } in
-    let mfull = full_tx_size (shape 1) and mlen = full_tx_size (shape 0) in   (* with the mock witness / as build_tx_unsafe returns it *)
-    let admitted = (match add_outputs cfg [] req with Ok _ -> true | _ -> false) in
-    (match impl with
-     | [] -> ((if admitted then "admitted" else "err:addout"), "na")
-     | ["err:addout"] -> ((if admitted then "admitted" else "err:addout"), "holds")
-     | ["err:size"] -> ("skip err:size", "holds")
-     | ["ok"; full; txlen] ->
-       let m = if not admitted then "err:addout" else (match build_guard cfg mfull with Ok _ -> "ok " ^ sn mfull ^ " " ^ sn mlen | _ -> "toobig " ^ sn mfull) in
-       let big = if BZ.compare (BZ.of_string full) (BZ.of_string txlen) >= 0 then full else txlen in
-       (m, show_verdict (judge_build cfg [] (nn big) None))
-     | ["toobig"; full] ->
-       let m = if not admitted then "err:addout" else (match build_guard cfg mfull with Ok _ -> "ok " ^ sn mfull ^ " " ^ sn mlen | _ -> "toobig " ^ sn mfull) in
-       (m, "holds")
-     | _ -> ("driver-unparsed", "fails:-"))
+    let okerr x = if x then "ok" else "err" in
+    let shape v = { t_inputs = List.init nin (fun i -> n_of_int i); t_outputs = req; t_fee = fee; t_vkeys = n_of_int v; t_boots = [];
+                    t_col_inputs = []; t_col_return = None; t_col_total = None; t_aux = None } in
+    let m = (match run_txsize_case mts (List.map (fun (c', ma) -> (c', ma)) ins) req fee with
+        | None -> "err:addout"
+        | Some (((full, b_ok), t_ok), u_ok) ->
+          let len = if t_ok || u_ok then full_tx_size (shape 0) else n_of_int 0 in
+          Printf.sprintf "%s %s %s B=%s T=%s U=%s" (if b_ok then "ok" else "toobig") (sn full) (sn len) (okerr b_ok) (okerr t_ok) (okerr u_ok)) in
+    let v = (match impl with
+        | [] -> "na"
+        | [_; full; len; b; t; u] ->
+          let strip pre x = let n = String.length pre in String.sub x n (String.length x - n) in
+          let returned = (strip "B=" b = "ok") || (strip "T=" t = "ok") || (strip "U=" u = "ok") in
+          show_verdict (judge_returned cfg returned [] None (Some (nn full)) (nn len))
+        | _ -> "holds") in
+    (m, v)
   | k -> failwith ("unknown case kind " ^ k)
 
 let () = run_driver handle
